@@ -432,6 +432,7 @@ type caseT struct {
 	Warm          [][2]string // an earlier, different request bound the same way (same type, entry point, options) whose
 	WarmS         []srcCase   // result is then written through (pointers, slices, maps): binds must not share state
 	HasWarm       bool
+	Warmup        int       `json:",omitempty"` // before the first bind of the type in this process: 1 WarmupCache, 2 MustWarmupCache
 	WarmNorm      int       `json:",omitempty"` // the earlier request was bound with WithKeyNormalizer (1 LowerCase, 2 CanonicalMIME) - an option the package stores and never reads
 	Norm          int       `json:",omitempty"` // (set on the copy of the case that runs the earlier request)
 	Tmpl          bool      `json:",omitempty"` // the earlier request was bound into a copy of the same pre-filled template: its slices share their backing arrays with the observed destination (p := defaults; QueryTo(q, &p))
@@ -612,6 +613,9 @@ func genCase(r *hx.Rand) caseT {
 			// nothing of this type has been bound in this process yet: several goroutines at once, no earlier request
 			c.Conc = 4
 			c.HasWarm, c.Warm, c.WarmS, c.Tmpl, c.WarmNorm = false, nil, nil, false, 0
+			if r.Chance(1, 3) {
+				c.Warmup = r.Range(1, 2)
+			}
 			c.EvB, c.HasEvC, c.EvC = 0, false, 0
 		}
 	}
@@ -1746,6 +1750,17 @@ func emit(id string, c caseT, st *hx.Stats) string {
 	if ct == nil {
 		return "# unknown type " + c.T
 	}
+	if c.Warmup != 0 {
+		// the application warms the cache up for its request types at start-up
+		func() {
+			defer func() { _ = recover() }()
+			if c.Warmup == 2 {
+				binding.MustWarmupCache(ct.E.New())
+			} else {
+				binding.WarmupCache(ct.E.New())
+			}
+		}()
+	}
 	var srcs []*srcT
 	var srcTags []int
 	switch c.Entry {
@@ -2036,6 +2051,9 @@ func emit(id string, c caseT, st *hx.Stats) string {
 		}
 		if c.WarmNorm != 0 {
 			st.Count("earlier_request_with_key_normalizer")
+		}
+		if c.Warmup != 0 {
+			st.Count("first_bind_after_WarmupCache")
 		}
 		if c.Binder {
 			st.Count("binder_" + c.Entry)
